@@ -114,7 +114,7 @@ def run_stats(events):
 
 
 def case_brief(case):
-    keys = ("id", "solver", "dim", "dyn", "cx", "t0", "t1", "dtmin", "dtmax", "tol", "rhs", "y0", "fail_at", "lip", "acc", "pair")
+    keys = ("id", "solver", "dim", "dyn", "cx", "t0", "t1", "dtmin", "dtmax", "tol", "rhs", "y0", "fail_at", "lip", "acc", "pair", "min_first")
     return {k: case[k] for k in keys if k in case}
 
 
